@@ -6,6 +6,10 @@ TB = "Trusted base: vf/sim.py (datasheet-derived nRF24L01+ model incl. Enhanced 
 CHECKS = {
  "C01": ("model_checking", "6 C01 / 9", "exhaustive enumeration (E-ENUM) of configurations x payload lengths x buffer types x call forms, all short payload lists, per-pipe static length vectors and write() bursts, executing the real RF24 objects on two simulated radios",
          "Every (length mode, payload length 0..40, buffer type, call form) and every pipe/width/rate/CRC/ack/channel/front combination at 3 lengths is executed on the real driver pair and compared with the datasheet-derived expectation; all payload lists up to depth 3; bursts of 1..5 write_only writes."),
+ "C03": ("model_checking", "6 C03 / 9", "explicit-state BFS: every call sequence of length <= 2 (thorough 3) over a 227-call alphabet (all setters in all input forms incl. out-of-domain, all getters) on plus and non-plus radios, plus deduplicated BFS to depth 4/5 inside each register-sharing group; oracle = independent datasheet/documentation register model",
+         "After every call the whole simulated register file must equal the reference prediction (encoding and foreign fields), no reserved/out-of-range value may have been written, every getter must return the value in effect, and leaving/re-entering the `with` block must not change any register (cache == radio)."),
+ "C09": ("model_checking", "6 C09 / 9", "explicit-state BFS over `with` blocks of 2-3 real driver objects (RF24, FakeBLE, RF24Network, RF24Mesh) sharing one simulated radio: every block sequence of <= 3 (thorough 4) blocks with all call pairs in the first two blocks",
+         "At every entry the register file right after __enter__ must equal the one at the end of that object's previous block (PWR_UP masked); after every exit PWR_UP is clear and CE low; the SPI log separates leaked from wrongly restored registers."),
  "C04": ("model_checking", "6 C04 / 9", "exhaustive enumeration of the routing transition system: all 781x780 (node, destination) states, next hop observed on the simulated air for every destination from 41 nodes (thorough: all), 781 really constructed nodes' registers for the listening map",
          "Every (node, destination) pair's next hop is identified as the unique (node, pipe) listening on the transmitted physical address and compared with an independent tree model; pipe-address injectivity over all 781x6 (node, pipe) pairs; multicast level addresses; 3 prefix/suffix sets x allow_multicast on/off."),
  "C05": ("model_checking", "6 C05 / 9", "enumeration of (topology, src, dst, length, type, API, fragmentation, timing class) plus deviation-bounded DFS over per-delivery poll latencies, every node a real network object on its own simulated MCU in a deterministic discrete-event world",
